@@ -302,6 +302,95 @@ static void commit_event(uint64_t lpid, struct lpmon *m, const struct ftmp *f, c
 	(void)e;
 }
 
+/* ---------------- baton scheduler (optional exploration mode) ----------------
+ * With vh_cfg.baton set, worker threads run ONE AT A TIME: a thread gives the baton away only at hook points (end of a main-loop
+ * iteration, entry of a GVT step, inside every waiting loop) to a thread picked by a seeded PRNG with per-thread weights. Every
+ * schedule produced is one the OS could produce (pre-emption at those points, arbitrarily long stalls), it is a function of the
+ * seed only, and a starved thread costs nothing - so narrow windows that need one thread to stand still while others take several
+ * steps are entered routinely. Busy-wait loops always yield, otherwise the serialized program could not make progress. */
+static pthread_mutex_t bt_mx = PTHREAD_MUTEX_INITIALIZER;
+static pthread_cond_t bt_cv = PTHREAD_COND_INITIALIZER;
+static int bt_holder = -1;
+static unsigned bt_registered, bt_finished; /* bit masks (<= 32 threads) */
+static uint64_t bt_rng;
+static unsigned bt_weight[32];
+static unsigned long long bt_switches;
+
+static uint64_t bt_next(void)
+{
+	uint64_t z = (bt_rng += 0x9E3779B97F4A7C15ULL);
+	z = (z ^ (z >> 30)) * 0xBF58476D1CE4E5B9ULL;
+	z = (z ^ (z >> 27)) * 0x94D049BB133111EBULL;
+	return z ^ (z >> 31);
+}
+/* caller holds bt_mx */
+static int bt_pick(void)
+{
+	unsigned live = bt_registered & ~bt_finished, tot = 0;
+	if(!live)
+		return -1;
+	for(unsigned i = 0; i < 32; ++i)
+		if(live & (1U << i))
+			tot += bt_weight[i];
+	unsigned r = (unsigned)(bt_next() % tot);
+	for(unsigned i = 0; i < 32; ++i)
+		if(live & (1U << i)) {
+			if(r < bt_weight[i])
+				return (int)i;
+			r -= bt_weight[i];
+		}
+	return -1;
+}
+static void baton_enter(void)
+{
+	if(!vh_cfg.baton || rid >= 32)
+		return;
+	pthread_mutex_lock(&bt_mx);
+	if(!bt_rng) {
+		bt_rng = vh_cfg.perturb_seed * 0x9E3779B97F4A7C15ULL + 77;
+		for(unsigned i = 0; i < 32; ++i) { /* some threads are picked 1/16 as often as others: long stalls */
+			static const unsigned w[] = {16, 16, 8, 4, 16, 2, 16, 1};
+			bt_weight[i] = w[bt_next() % 8];
+		}
+	}
+	bt_registered |= 1U << rid;
+	if(bt_holder < 0)
+		bt_holder = (int)rid;
+	while(bt_holder != (int)rid)
+		pthread_cond_wait(&bt_cv, &bt_mx);
+	pthread_mutex_unlock(&bt_mx);
+}
+static void baton_yield(unsigned one_in)
+{
+	if(!vh_cfg.baton || rid >= 32 || bt_holder != (int)rid)
+		return;
+	pthread_mutex_lock(&bt_mx);
+	if(one_in <= 1 || bt_next() % one_in == 0) {
+		int n = bt_pick();
+		if(n >= 0 && n != (int)rid) {
+			bt_switches++;
+			bt_holder = n;
+			pthread_cond_broadcast(&bt_cv);
+			while(bt_holder != (int)rid)
+				pthread_cond_wait(&bt_cv, &bt_mx);
+		}
+	}
+	pthread_mutex_unlock(&bt_mx);
+}
+static void baton_leave(void)
+{
+	if(!vh_cfg.baton || rid >= 32)
+		return;
+	pthread_mutex_lock(&bt_mx);
+	bt_finished |= 1U << rid;
+	if(bt_holder == (int)rid) {
+		bt_holder = bt_pick();
+		pthread_cond_broadcast(&bt_cv);
+	}
+	pthread_mutex_unlock(&bt_mx);
+}
+unsigned long long vh_baton_switches(void) { return bt_switches; }
+
 /* ---------------- the hook ---------------- */
 void rs_verif_hook(unsigned point, const void *p, uint64_t a, uint64_t b)
 {
@@ -312,15 +401,25 @@ void rs_verif_hook(unsigned point, const void *p, uint64_t a, uint64_t b)
 			t->seen = 1;
 			atomic_store_explicit(&t->stage, (int)a, memory_order_relaxed);
 			PROGRESS();
+			if(a == VS_THREAD_START)
+				baton_enter();
+			else if(a == VS_THREAD_DONE)
+				baton_leave();
 			if(a == VS_LOOP_EXIT)
 				failpoint(vh_cfg.fp_level >= 2 ? 2 : 0, 7);
 			return;
 		case VH_DRAIN:
+			if(a == 5) { /* one more turn of a waiting loop of gvt_msg_drain(): not a state change */
+				baton_yield(1);
+				return;
+			}
 			atomic_store_explicit(&t->drain_stage, (int)a + 1, memory_order_relaxed);
 			PROGRESS();
 			failpoint(vh_cfg.fp_level >= 2 ? 3 : 0, 7);
 			return;
 		case VH_GVT_STAGE: {
+			if(b == 1 || (b == 2 && a >= 16 + 1)) /* entry of a thread-level step / of a node-level step that may have to wait */
+				baton_yield(atomic_load_explicit(&t->stage, memory_order_relaxed) >= VS_LOOP_EXIT ? 1 : 3);
 			_Atomic int *slot = a >= 16 ? &t->gvt_nphase : &t->gvt_tphase;
 			int v = (int)(a >= 16 ? a - 16 : a);
 			if(atomic_load_explicit(slot, memory_order_relaxed) != v) {
@@ -364,6 +463,7 @@ void rs_verif_hook(unsigned point, const void *p, uint64_t a, uint64_t b)
 			atomic_store_explicit(&t->in_barrier, 1, memory_order_relaxed);
 			return;
 		case VH_BARRIER_SPIN:
+			baton_yield(1);
 			failpoint(vh_cfg.fp_level >= 3 ? 5000 : 0, 1);
 			return;
 		case VH_BARRIER_EXIT:
@@ -371,6 +471,7 @@ void rs_verif_hook(unsigned point, const void *p, uint64_t a, uint64_t b)
 			PROGRESS();
 			return;
 		case VH_LOOP_TAIL:
+			baton_yield(2);
 			failpoint(vh_cfg.fp_level >= 3 ? 40 : vh_cfg.fp_level == 2 ? 300 : vh_cfg.fp_level == 1 ? 2000 : 0, 7);
 			return;
 		case VH_TERM_VOTE: {
